@@ -36,6 +36,9 @@ fn run_stream(input: &Value, salt: u64) -> Value {
                 }
                 "end" => s.peer_end(op["how"].as_str().unwrap_or("eof")),
                 "wfail" => s.peer.stop_reading(),
+                // the peer takes a few octets more (less than any request), then nothing
+                "stall" => s.peer.write_credit(Some(3 + (salt as usize + i) % 9)),
+                "unstall" => s.peer.write_credit(None),
                 "drop" => s.drop_handles(),
                 "tick" => s.tick().await,
                 _ => return json!({"bad_op": op}),
